@@ -241,7 +241,7 @@ def serveSign (cfg : Config) (mods : List SignerMod) (cl : Client) (req : Reques
             .ok (u, a)
 
 /-- signCmd with an explicit or detected signature type (`m` = result of signers.ByFile) -/
-def signCmd (cfg : Config) (m : Option SignerMod) (keyName digest : String) (now host : String)
+def signCmd (cfg : Config) (m : Option SignerMod) (keyName digest argFile : String) (now host : String)
     (sign : Used → Option (List (String × String))) : Except Err (Used × Attrs) :=
   match m with
   | none => .error .unknownSigType
@@ -255,6 +255,7 @@ def signCmd (cfg : Config) (m : Option SignerMod) (keyName digest : String) (now
         match init cfg m keyName h now host with
         | .error e => .error e
         | .ok (u, a) =>
+          let a := aset a "client.filename" argFile   -- opts.Audit.Attributes["client.filename"] = argFile
           match sign u with
           | none => .error .internal
           | some extra => .ok (u, asetAll a extra)
